@@ -381,8 +381,10 @@ func c05fit(c *Ctx) {
 			reach := an.Explore(fn, nil, facts, nil)
 			var bad []string
 			for _, ret := range reach.Returns() {
-				if an.IsNilConst(ret.Results[0]) && an.IsNilConst(ret.Results[1]) {
-					bad = append(bad, c.InstrPos(ret))
+				for _, alt := range reach.Alts(ret) {
+					if an.IsNilConst(alt.Results[0]) && an.IsNilConst(alt.Results[1]) {
+						bad = append(bad, c.InstrPos(ret))
+					}
 				}
 			}
 			r.Check(nPol == 1 && len(bad) == 0, "PATH", key+"/restricted", c.InstrPos(calls[0]), "a restricted reservation fits only if fitsReservation has no reason",
@@ -484,8 +486,10 @@ func c05match(c *Ctx) {
 		reach := an.Explore(fn, nil, facts, nil)
 		bad := false
 		for _, ret := range reach.Returns() {
-			if reach.EvalAt(ret.Results[0], ret) != an.False {
-				bad = true
+			for _, alt := range reach.Alts(ret) {
+				if reach.EvalAlt(alt, 0) != an.False {
+					bad = true
+				}
 			}
 		}
 		r.Check(len(facts) == 2 && !bad, "PATH", fkey(fn)+"/allocate-once", c.Pos(fn.Pos()), "an allocate-once reservation with a pod is not matchable", "IsMatchable can return true for an allocate-once reservation that already has an assigned pod")
@@ -507,8 +511,10 @@ func c05match(c *Ctx) {
 		reach := an.Explore(fn, nil, facts, nil)
 		bad := false
 		for _, ret := range reach.Returns() {
-			if reach.EvalAt(ret.Results[0], ret) != an.False {
-				bad = true
+			for _, alt := range reach.Alts(ret) {
+				if reach.EvalAlt(alt, 0) != an.False {
+					bad = true
+				}
 			}
 		}
 		r.Check(n >= 1 && !bad, "PATH", fkey(fn)+"/owner-check", c.Pos(fn.Pos()), "no match without owner match (unless reservations are ignored for the pod)", "a pod can be matched to a reservation whose owner specification it does not satisfy")
@@ -532,8 +538,10 @@ func c05match(c *Ctx) {
 		reach := an.Explore(fn, nil, facts, nil)
 		bad := false
 		for _, ret := range reach.Returns() {
-			if reach.EvalAt(ret.Results[0], ret) != an.False {
-				bad = true
+			for _, alt := range reach.Alts(ret) {
+				if reach.EvalAlt(alt, 0) != an.False {
+					bad = true
+				}
 			}
 		}
 		r.Check(n >= 1 && !bad, "PATH", fkey(fn)+"/owner-check", c.Pos(fn.Pos()), "default-mode pre-allocation requires the owner match", "a pre-allocatable pod can be matched in default mode without satisfying the owner specification")
